@@ -78,11 +78,19 @@ def _gen_1d(n, ch):
             ("da.expand_dims(x, 0).rechunk({{1: {t}}})", "np.expand_dims(a, 0)", None),
             ("x.rechunk({t}).sum()", "a.sum()", None),
             ("da.where(x > 12, x, 0).rechunk({t})", "np.where(a > 12, a, 0)", "da.where(x > 12, x, 0)"),
+            # ufunc with array where= / out= below the rechunk, and consumers that
+            # observe the delivered grid (block-dependent function, .blocks)
+            ("da.add(x, 1000, where=x > 12, out=x * 0).rechunk({t})", "np.add(a, 1000, where=a > 12, out=a * 0)", "da.add(x, 1000, where=x > 12, out=x * 0)"),
+            ("da.map_blocks(uf.demean0, da.add(x, 1000, where=x > 12, out=x * 0).rechunk({t}), dtype='f8')", "uf.np_blockmap(uf.demean0, np.add(a, 1000, where=a > 12, out=a * 0), x.rechunk({t}).chunks)", None),
+            ("da.add(x, 1000, where=x > 12, out=x * 0).rechunk({t}).blocks[0]", "np.add(a, 1000, where=a > 12, out=a * 0)[: x.rechunk({t}).chunks[0][0]]", None),
+            ("da.map_blocks(uf.demean0, (x + x[::-1]).rechunk({t}), dtype='f8')", "uf.np_blockmap(uf.demean0, a + a[::-1], x.rechunk({t}).chunks)", None),
+            ("(x + x[::-1]).rechunk({t}).blocks[-1]", "(a + a[::-1])[-x.rechunk({t}).chunks[0][-1] :]", None),
+            ("da.map_blocks(uf.demean0, da.concatenate([x[:2], x[2:]]).rechunk({t}), dtype='f8')", "uf.np_blockmap(uf.demean0, a, x.rechunk({t}).chunks)", None),
         ]
         for dexpr, nexpr, parent in progs:
             if "expand_dims" in dexpr and not tgt.lstrip("-").isdigit():
                 continue
-            c = {"source": src, "expr": dexpr.format(t=tgt), "nexpr": nexpr, "label": "rechunk-in-program", "exact": "sum" not in dexpr, "np_raises_must_raise": False}
+            c = {"source": src, "expr": dexpr.format(t=tgt), "nexpr": nexpr.replace("{t}", tgt), "label": "rechunk-in-program", "exact": "sum" not in dexpr, "np_raises_must_raise": False}
             if tgt.startswith("("):
                 # an explicit chunking of length n does not fit programs that change the length
                 c["may_refuse"] = ["ValueError"]
@@ -117,11 +125,15 @@ def _gen_2d(shape, chunks):
             ("da.expand_dims(x, 1).rechunk({t} if False else 1)", "np.expand_dims(a, 1)", None),
             ("x.rechunk({t}).sum(axis=0)", "a.sum(axis=0)", None),
             ("da.stack([x, x + 1]).rechunk({{1: 1}})", "np.stack([a, a + 1])", None),
+            ("da.add(x, 1000, where=x > 12, out=x * 0).rechunk({t})", "np.add(a, 1000, where=a > 12, out=a * 0)", "da.add(x, 1000, where=x > 12, out=x * 0)"),
+            ("da.map_blocks(uf.demean0, da.add(x, 1000, where=x > 12, out=x * 0).rechunk({t}), dtype='f8')", "uf.np_blockmap(uf.demean0, np.add(a, 1000, where=a > 12, out=a * 0), x.rechunk({t}).chunks)", None),
+            ("da.add(x, 1000, where=x > 12, out=x * 0).rechunk({t}).blocks[0, 0]", "np.add(a, 1000, where=a > 12, out=a * 0)[: x.rechunk({t}).chunks[0][0], : x.rechunk({t}).chunks[1][0]]", None),
+            ("da.map_blocks(uf.demean0, (x + x[:1]).rechunk({t}), dtype='f8')", "uf.np_blockmap(uf.demean0, a + a[:1], x.rechunk({t}).chunks)", None),
         ]
         for dexpr, nexpr, parent in progs:
             if shape[0] != shape[1] and ".T.rechunk" in dexpr and tgt == "(2, 3)":
                 pass
-            c = {"source": src, "expr": dexpr.format(t=tgt), "nexpr": nexpr, "label": "rechunk-in-program-2d", "exact": "sum" not in dexpr, "np_raises_must_raise": False}
+            c = {"source": src, "expr": dexpr.format(t=tgt), "nexpr": nexpr.replace("{t}", tgt), "label": "rechunk-in-program-2d", "exact": "sum" not in dexpr, "np_raises_must_raise": False}
             if parent is not None:
                 c["spec"] = tgt
                 c["parent_expr"] = parent
@@ -170,7 +182,7 @@ def _extra(case, y, val, ref, a, x):
 
 _m = CC.make(
     "C14", gen_cases, plan_shards,
-    rule="every source chunking of n<=6 (and of (3,4)) x every target spec (every explicit chunking, ints 1..n+1, -1, None, dicts incl. negative axes, 'auto', byte strings, method='tasks', planner knobs, balance=True): chunks == normalize_chunks(spec, shape, previous_chunks), values unchanged, every block has the advertised size; plus a rechunk at every position of short programs over elemwise/broadcast/transpose/concatenate/expand_dims/slice/second rechunk/reduction, and an unknown-size axis left untouched. Non-trivial = multi-block source and non-empty result",
+    rule="(rechunk also below consumers that observe the delivered grid: block-dependent map_blocks and .blocks, over plain, where=/out= and concatenate producers) every source chunking of n<=6 (and of (3,4)) x every target spec (every explicit chunking, ints 1..n+1, -1, None, dicts incl. negative axes, 'auto', byte strings, method='tasks', planner knobs, balance=True): chunks == normalize_chunks(spec, shape, previous_chunks), values unchanged, every block has the advertised size; plus a rechunk at every position of short programs over elemwise/broadcast/transpose/concatenate/expand_dims/slice/second rechunk/reduction, and an unknown-size axis left untouched. Non-trivial = multi-block source and non-empty result",
     assumptions=["normalize_chunks (checked separately in C16) resolves the spec", "NumPy values are the reference (rechunk is the identity on values)"],
     floors={"accepted": 3000},
     extra=_extra,
